@@ -51,8 +51,12 @@ fn main() {
             let vs: u64 = args[4].parse().unwrap_or(1);
             let w: u64 = args[5].parse().unwrap_or(0);
             let nw: u64 = args[6].parse().unwrap_or(1);
-            let only = args.get(7).map(|s| s.split(',').filter_map(|x| x.parse::<u64>().ok()).collect::<Vec<_>>());
-            runner::worker(c, vs, thorough, w, nw, c.n_runs(thorough), only);
+            let slice = match args.get(7) {
+                None => runner::Slice::All,
+                Some(s) if s.starts_with("gt:") => runner::Slice::After(s[3..].parse().unwrap_or(0)),
+                Some(s) => runner::Slice::Only(s.split(',').filter_map(|x| x.parse::<u64>().ok()).collect()),
+            };
+            runner::worker(c, vs, thorough, w, nw, c.n_runs(thorough), slice);
         }
         Some("minimize") => {
             // minimize <Cxx> <tier> <verif_seed> <idx> <clause> <sig> <out>
